@@ -361,13 +361,30 @@ pub fn exec(line: &str, _model: &mut Model) -> Option<Exec> {
             let s = String::from_utf8(unhex(t.get(1)?)?).ok()?;
             let r = no_panic(|| EndpointID::try_from(s.as_str()));
             let mut e = Exec::new(match &r { None => "panic".into(), Some(Ok(x)) => format!("ok {}", show_eid(x)), Some(Err(_)) => "err".into() });
+            // the other public ways to the same endpoint ID: TryFrom<String>, TryFrom<IpnAddress>, new()/none()/default()
+            let r2 = no_panic(|| EndpointID::try_from(s.clone()));
+            let cls = |x: &Option<Result<EndpointID, bp7::eid::EndpointIdError>>| match x { None => "panic".to_string(), Some(Ok(y)) => format!("ok {:?}", y), Some(Err(_)) => "err".to_string() };
+            let mut ways: Option<String> = None;
+            if cls(&r) != cls(&r2) { ways = Some(format!("EndpointID::try_from(&str) and try_from(String) disagree on {:?}: {} vs {}", s, cls(&r), cls(&r2))); }
+            if let Some(Ok(EndpointID::Ipn(_, a))) = &r {
+                let via = no_panic(|| EndpointID::try_from(a.clone()).ok()).flatten();
+                if via.as_ref() != r.as_ref().and_then(|x| x.as_ref().ok()) { ways = Some(format!("EndpointID::try_from(IpnAddress) gives {:?} for the address of {:?}", via, s)); }
+                if r.as_ref().and_then(|x| x.as_ref().ok()).and_then(|x| x.scheme_specific_part_ipn()) != Some(a.clone()) { ways = Some("scheme_specific_part_ipn differs from the address".into()); }
+            }
+            if let Some(Ok(x @ EndpointID::Dtn(_, a))) = &r {
+                if x.scheme_specific_part_dtn() != Some(a.to_string()) || a.is_singleton() == a.is_non_singleton() || x.is_non_singleton() != a.is_non_singleton() { ways = Some(format!("dtn address accessors of {:?} disagree (scheme specific part / singleton tests)", s)); }
+                let rebuilt = no_panic(|| bp7::eid::DtnAddress::new(a.node_name(), a.service_name().unwrap_or_default()).to_string());
+                if rebuilt.as_deref() != Some(a.to_string().as_str()) { ways = Some(format!("DtnAddress::new(node, service) of {:?} prints {:?}", a.to_string(), rebuilt)); }
+            }
+            if EndpointID::new() != EndpointID::none() || EndpointID::default() != EndpointID::none() || EndpointID::none().to_string() != "dtn:none" { ways = Some("new() / default() / none() are not all dtn:none".into()); }
             match &r {
                 None => e.oracle_fail = Some("parser panics".into()),
                 Some(Ok(x)) => {
+                    e.oracle_fail = ways.clone();
                     // C10: print/parse and CBOR round trips, accessors
                     let printed = x.to_string();
                     let back = no_panic(|| EndpointID::try_from(printed.as_str()));
-                    if !matches!(&back, Some(Ok(y)) if y == x) { e.oracle_fail = Some(format!("{:?} prints as {:?} which does not parse back to it", s, printed)); }
+                    if !matches!(&back, Some(Ok(y)) if y == x) { e = e.fail(Some(format!("{:?} prints as {:?} which does not parse back to it", s, printed))); }
                     let cb = serde_cbor::to_vec(x).ok().and_then(|v| serde_cbor::from_slice::<EndpointID>(&v).ok());
                     if cb.as_ref() != Some(x) { e = e.fail(Some("CBOR form does not decode back to an equal EID".into())); }
                     let cr = serde_cbor::to_vec(x).ok().and_then(|v| no_panic(|| serde_cbor::from_reader::<EndpointID, _>(&v[..]).ok()).flatten());
@@ -379,7 +396,7 @@ pub fn exec(line: &str, _model: &mut Model) -> Option<Exec> {
                         }
                     } else if *x != EndpointID::none() { e = e.fail(Some("node_id() is None or panics for a non-null EID".into())); }
                 }
-                Some(Err(_)) => {}
+                Some(Err(_)) => { e.oracle_fail = ways.clone(); }
             }
             e.nontrivial = s.len() > 4;
             Some(e)
